@@ -57,6 +57,8 @@ def units(tier):
         for codec in cont.CODECS:
             for nblocks in (0, 1, 2, 3):
                 us.append((si, codec, nblocks))
+            if not SCHEMAS[si][0].startswith(("bytes-big",)):
+                us.append((si, codec, "3+empty"))  # the three blocks with legal zero-record blocks after the first and at the end
     return us
 
 
@@ -102,9 +104,19 @@ def run_unit(unit, tier):
 
     si, codec, nblocks = unit
     res = UnitResult()
+    with_empty = nblocks == "3+empty"
+    if with_empty:
+        nblocks = 3
     raw, written, data = build(fa, si, codec, nblocks)
     node, defs = names.resolve(raw)
     exp = [conform.normalise(node, defs, r) for r in written]
+    if with_empty:
+        p0 = container.parse(data)
+        payload = container.compress(codec, b"")
+        empty = b"\x00" + binary.zigzag(len(payload)) + payload + p0["sync"]
+        cut1 = p0["blocks"][0]["end"]
+        data = data[:cut1] + empty + data[cut1:] + empty
+        nblocks = 5
     p = container.parse(data)
     got_ref, per_block = container.records(p)
     assert len(p["blocks"]) == nblocks and len(got_ref) == len(exp) and all(same(a, b) for a, b in zip(got_ref, exp)), "intact file disagrees with reference"
